@@ -58,8 +58,8 @@ pub fn run(ctx: &Ctx) {
         let t: String = format!("{pre}{}", body.chars().cycle().take(len.saturating_sub(2)).chain("1c".chars().take(len.min(2))).collect::<String>());
         check_text(ctx, "length-sweep", i, &format!("len={},{}", if len == 130 { "130" } else if len < 130 { "short" } else { "long" }, if pre.is_empty() { "bare" } else { "0x" }), &t);
     });
-    let devs = ['g', 'G', ' ', 'x', '\u{e9}', '-', '+', 'A'];
-    ctx.sweep("one-deviating-character", "a valid 130-digit text (bare and 0x-prefixed) with one of 8 deviating characters at every index", (132 * 2 * devs.len()) as u64, |i| {
+    let devs = ['g', 'G', ' ', 'x', '\u{e9}', '-', '+', 'A', '\u{131}', '\u{661}', '\u{1f531}', '\u{b1}']; // the last four become '1', 'a', '1', '1' when a code point is cut to 8 / 7 bits
+    ctx.sweep("one-deviating-character", "a valid 130-digit text (bare and 0x-prefixed) with one of 12 deviating characters (incl. four whose code point cut to 8 / 7 bits is a hex digit) at every index", (132 * 2 * devs.len()) as u64, |i| {
         let d = devs[i as usize % devs.len()]; let pos = (i as usize / devs.len()) % 132; let pre = i as usize / devs.len() / 132 == 1;
         let src = if pre { good.clone() } else { body.to_string() }; if pos >= src.len() { return; }
         let t: String = src.chars().enumerate().map(|(k, c)| if k == pos { d } else { c }).collect();
